@@ -89,6 +89,11 @@ def _judge(case: dict[str, Any], rec: Any, band: bool, dist: dict[int, float] | 
     dist = out["distribution"]
     rep = distmon.stage_report(case, out)
     rep["via"] = via
+    if rep.get("excl_hook_mismatch"):
+        rec.violation("split-stage-works-with-an-exclusion-bound-that-is-not-the-inverter's-own",
+                      {"power": p, "mismatch": rep["excl_hook_mismatch"], "via": via, "exp": case["exp"]})
+    if "excl_hook_mismatch" in rep:
+        rec.count("inverter_exclusion_hook_checks")
     any_excl = False
     any_nonzero = False
     for g, grp in enumerate(case["groups"]):
